@@ -977,6 +977,7 @@ pub fn digests_main(args: &[String]) -> i32 {
     let seed: u64 = args.get(1).and_then(|s| s.parse().ok()).unwrap_or(1);
     let from: u64 = args.get(2).and_then(|s| s.parse().ok()).unwrap_or(0);
     let to: u64 = args.get(3).and_then(|s| s.parse().ok()).unwrap_or(0);
+    child_prelude();
     let threads = 4usize;
     let mut handles = vec![];
     for w in 0..threads {
@@ -1026,7 +1027,22 @@ pub const ENV_VARIANTS: &[&[(&str, Option<&str>)]] = &[
     &[("TERM", None), ("LANG", Some("C")), ("LC_ALL", Some("tr_TR.UTF-8")), ("TZ", Some("Pacific/Apia")), ("COLUMNS", Some("20"))],
 ];
 
+/// Odd-numbered child processes of the second layer do unrelated work first (the history work
+/// of the in-process trials): state that the *first* use in a process pins for the rest of its
+/// life (a lazily initialised static filled from whatever schema came first) then differs between
+/// children.
+fn child_prelude() {
+    if std::env::var_os("VERIF_CHILD_HISTORY").is_some() {
+        history_work(0x5EED_0001);
+    }
+}
+
 fn apply_env_variant(cmd: &mut Command, variant: usize) {
+    if variant % 2 == 1 {
+        cmd.env("VERIF_CHILD_HISTORY", "1");
+    } else {
+        cmd.env_remove("VERIF_CHILD_HISTORY");
+    }
     for (k, v) in ENV_VARIANTS[variant % ENV_VARIANTS.len()] {
         match v {
             Some(v) => {
@@ -1097,7 +1113,7 @@ fn process_layer(seed: u64, tier: Tier, units: u64, processes: usize) -> Result<
     }
     Ok((
         json!({"process_layer": {"processes": processes, "inputs_compared": compared, "wall_s": started.elapsed().as_secs_f64(),
-               "note": "each process: fresh OS keys for ahash (disarmed ahash-sim) and std RandomState, fresh ASLR, cold lazy statics, 4 threads, one of 4 environment variants (TERM / NO_COLOR / CLICOLOR_FORCE / LANG / LC_ALL / TZ / COLUMNS)"}}),
+               "note": "each process: fresh OS keys for ahash (disarmed ahash-sim) and std RandomState, fresh ASLR, cold lazy statics, 4 threads, one of 4 environment variants (TERM / NO_COLOR / CLICOLOR_FORCE / LANG / LC_ALL / TZ / COLUMNS); odd-numbered processes do unrelated work first (other documents, a schema that redefines a built-in directive)"}}),
         violations,
     ))
 }
@@ -1148,6 +1164,7 @@ pub fn one_main() -> i32 {
     }
     let Ok(j) = serde_json::from_str::<J>(&text) else { return 2 };
     let Ok(case) = Case::from_json(&j) else { return 2 };
+    child_prelude();
     let r = std::panic::catch_unwind(std::panic::AssertUnwindSafe(|| bundle(&case.input)));
     match r {
         Ok(Ok(b)) => {
